@@ -22,6 +22,9 @@ FAMILIES = [
     ("", "func fc1(){ &xc = d1000000000; [xc,xc,xc] }; fc1()"), ("", "func fr1(){ [1,2,3,4,5,6,7,8].rand() + d1000 }; fr1()"),
     ("", "&cr1 = [1,2,3,4,5,6,7,8].randSize(3); [cr1, cr1]"), ("", "func fs1(){ [1,2,3,4,5,6,7,8].shuffle() }; [fs1(), fs1()]"),
     ("", "func fo1(){ func fi1(){ [1,2,3,4,5,6,7,8].rand() }; fi1() + fi1() }; fo1()"),
+    # dict iteration is part of the evaluation: its order may not vary from run to run
+    ("", "mp = {'b':1,'a':2,'c':3,'力':4,'z9':5,'_k':6}; [mp.keys(), mp.values(), `{mp}`, mp.values().rand(), mp.keys().shuffle()]"),
+    ("", "dq = {}; dq.x1 = d100; dq.a = d100; dq.m = d100; dq.items()"), ("", "[dir([1]), dir({})]"),
 ]
 
 
